@@ -123,8 +123,10 @@ impl DataType {
             DataType::String => ArrowDataType::Utf8,
             DataType::Bool => ArrowDataType::Boolean,
             DataType::Null => ArrowDataType::Null,
-            // Vectors with known dimension use FixedSizeList (preserves dimension info)
-            DataType::Vector { dim: Some(n) } => ArrowDataType::FixedSizeList(
+            // Vectors with known dimension use FixedSizeList (preserves dimension info);
+            // dimension 0 cannot be a FixedSizeList (its length would be 0 rows) and uses the
+            // variable-length encoding
+            DataType::Vector { dim: Some(n) } if *n > 0 => ArrowDataType::FixedSizeList(
                 Arc::new(arrow::datatypes::Field::new(
                     "item",
                     ArrowDataType::Float32,
@@ -133,11 +135,11 @@ impl DataType {
                 *n as i32,
             ),
             // Vectors with unknown dimension use LargeList (variable length)
-            DataType::Vector { dim: None } => ArrowDataType::LargeList(Arc::new(
+            DataType::Vector { .. } => ArrowDataType::LargeList(Arc::new(
                 arrow::datatypes::Field::new("item", ArrowDataType::Float32, false),
             )),
             // Int8 vectors with known dimension use FixedSizeList
-            DataType::VectorInt8 { dim: Some(n) } => ArrowDataType::FixedSizeList(
+            DataType::VectorInt8 { dim: Some(n) } if *n > 0 => ArrowDataType::FixedSizeList(
                 Arc::new(arrow::datatypes::Field::new(
                     "item",
                     ArrowDataType::Int8,
@@ -146,7 +148,7 @@ impl DataType {
                 *n as i32,
             ),
             // Int8 vectors with unknown dimension use LargeList
-            DataType::VectorInt8 { dim: None } => ArrowDataType::LargeList(Arc::new(
+            DataType::VectorInt8 { .. } => ArrowDataType::LargeList(Arc::new(
                 arrow::datatypes::Field::new("item", ArrowDataType::Int8, false),
             )),
             // Timestamps (milliseconds since Unix epoch) keep their own column type so that
